@@ -177,6 +177,8 @@ func c14Server(r *vf.Run, t *testing.T, id string, rng *rand.Rand) {
 		failed = true
 	}
 	var kindsUsed []string
+	paddedTrickle := 0
+	defer func() { r.Inc("wellformed_uploads_that_are_mostly_padding", int64(paddedTrickle)) }()
 	res := rt.RunBubble(t, id, 120*time.Second, func() {
 		so := rt.ServerOpts{MaxRequestBodySize: bodyLimit * 64}
 		e := rt.NewServerEnv(id, so)
@@ -208,6 +210,18 @@ func c14Server(r *vf.Run, t *testing.T, id string, rng *rand.Rand) {
 				for i := 1 + rng.Intn(2); i > 0; i-- {
 					x.pads = append(x.pads, []int{-1, 0, 1, 100, 255}[rng.Intn(5)])
 				}
+			}
+			if kind == "" && rng.Intn(4) == 0 {
+				// a well-formed upload that is mostly padding: several windows' worth of pad octets go by, all of which
+				// count against both windows and must come back
+				x.body = x.body[:min(len(x.body), 12000+rng.Intn(20000))]
+				x.chunks, x.pads = []int{20 + rng.Intn(40)}, []int{255}
+				paddedTrickle++
+			}
+			if amplify && kind == "" {
+				// amplified: one data octet and 256 octets of padding overhead per frame, ~5 MB of window use per upload
+				x.body = make([]byte, 18000+rng.Intn(4000))
+				x.chunks, x.pads = []int{1}, []int{255}
 			}
 			if amplify && kind != "" {
 				x.chunks, x.pads = []int{1}, []int{255}
@@ -407,7 +421,13 @@ func c14Client(r *vf.Run, t *testing.T, id string, rng *rand.Rand) {
 			nCancel, emptyPadded, k = 0, true, 2
 		}
 	}
-	replay := map[string]any{"role": "client", "downloads": k, "cancelled": nCancel, "empty_padded_frames": emptyPadded, "amplify": amplify}
+	// churn: many short requests in a row, each cancelled by its caller while the whole (one frame, END_STREAM) answer
+	// is still on its way; every such frame uses connection window, which a receiver must hand back
+	churn := 0
+	if !amplify && rng.Intn(5) == 0 {
+		churn = 20 + rng.Intn(60)
+	}
+	replay := map[string]any{"role": "client", "downloads": k, "cancelled": nCancel, "empty_padded_frames": emptyPadded, "amplify": amplify, "cancel_churn_rounds": churn}
 	failed := false
 	fail := func(rule, detail string) {
 		if !failed {
@@ -425,6 +445,56 @@ func c14Client(r *vf.Run, t *testing.T, id string, rng *rand.Rand) {
 		if v, ok := e.ClientSettings[4]; ok {
 			led.init = int64(v)
 		}
+		seenStreams := map[uint32]bool{}
+		for round := 0; round < churn && !failed; round++ {
+			tag := fmt.Sprintf("%s.churn%d", id, round)
+			c := e.Do(tag, func(req *fasthttp.Request) {
+				req.SetRequestURI("https://d.example/" + tag)
+				req.Header.Add("x-vtag", tag)
+			})
+			rt.Wait()
+			var sid uint32
+			for _, s := range e.RequestsSeen() {
+				if !seenStreams[s.Stream] {
+					seenStreams[s.Stream] = true
+					sid = s.Stream
+				}
+			}
+			if sid == 0 {
+				fail("request-missing", fmt.Sprintf("churn round %d: the request never arrived", round))
+				break
+			}
+			e.P.Write(rt.Concat(rt.HeaderFrames(sid, e.P.EncodeBlock([]F{{Name: ":status", Value: "200"}, {Name: "x-rtag", Value: tag}}, nil), nil, -1, nil, false)))
+			rt.Wait()
+			e.C.Cancel(c.Ctx)
+			rt.Wait()
+			led.absorb(e.P.FramesFrom(led.seen))
+			if led.bad != "" {
+				fail("illegal-window-update", "cancel churn: "+led.bad)
+				break
+			}
+			size := int64(1 + rng.Intn(16384))
+			if rng.Intn(2) == 0 {
+				size = 16384
+			}
+			if led.avail(sid) < size {
+				if led.avail(sid) < 1 {
+					fail("sender-starved", fmt.Sprintf("cancel churn round %d: the server cannot send a single byte on new stream %d: stream window %d, connection window %d, and the client is quiescent; every earlier round sent one DATA frame with END_STREAM on a stream its caller had just cancelled", round, sid, led.init+led.stream[sid], led.conn))
+					break
+				}
+				size = led.avail(sid)
+			}
+			// the server has not seen the RST_STREAM yet: the complete answer, one DATA frame with END_STREAM
+			led.spend(sid, size)
+			e.P.Write(rt.Concat(rt.DataFrames(sid, make([]byte, size), nil, nil, true)))
+			rt.Wait()
+			led.absorb(e.P.FramesFrom(led.seen))
+			r.Inc("answers_completed_on_streams_the_caller_had_cancelled", 1)
+		}
+		if failed {
+			e.Finish()
+			return
+		}
 		total := k + nCancel
 		calls := make([]*rt.Call, total)
 		for i := 0; i < total; i++ {
@@ -437,6 +507,9 @@ func c14Client(r *vf.Run, t *testing.T, id string, rng *rand.Rand) {
 		}
 		var xs []*c14Xfer
 		for _, s := range e.RequestsSeen() {
+			if seenStreams[s.Stream] {
+				continue
+			}
 			tag, _ := s.Get("x-vtag")
 			var idx int
 			fmt.Sscanf(tag[len(id)+1:], "%d", &idx)
@@ -583,7 +656,7 @@ func c14Client(r *vf.Run, t *testing.T, id string, rng *rand.Rand) {
 		e.Finish()
 	})
 	c01Outcome(r, id, res, nil, replay, "C14")
-	r.Eval(vf.Hash("client", k, nCancel, emptyPadded, amplify), true)
+	r.Eval(vf.Hash("client", k, nCancel, emptyPadded, amplify, churn > 0), true)
 	if r.WantSample() {
 		r.Sample(replay)
 	}
